@@ -67,3 +67,32 @@ mutant('C14-apply-writes-self', 'C14', 'R14.a', PT, "            table = PairTab
 twin('C14-twin-mirror-order', 'C14', PT, 'if self.symmetric and t1!=t2:', 'if t1!=t2 and self.symmetric:')
 TB = 'pyPRISM/core/Table.py'
 mutant('C14-listify-str', 'C14', 'R14.l', TB, "        if isinstance(values,str):\n            values = [values]\n        else:\n            try:", "        if False:\n            values = [values]\n        else:\n            try:")
+
+CA = 'pyPRISM/calculate/'
+mutant('C05-sf-site-pair', 'C05', 'R05.s', CA + 'structure_factor.py', 'PRISM.totalCorr*PRISM.sys.density.pair + PRISM.omega', 'PRISM.totalCorr*PRISM.sys.density.site + PRISM.omega')
+mutant('C05-sf-norm-pair', 'C05', 'R05.s', CA + 'structure_factor.py', 'structureFactor /= PRISM.sys.density.site', 'structureFactor /= PRISM.sys.density.pair')
+mutant('C05-b2-sign', 'C05', 'R05.b2', CA + 'second_virial.py', 'B2[t1,t2] = - 0.5 * PRISM.totalCorr[t1,t2][0]', 'B2[t1,t2] = 0.5 * PRISM.totalCorr[t1,t2][0]')
+mutant('C05-b2-two-points', 'C05', 'R05.b2', CA + 'second_virial.py', "x = PRISM.sys.domain.k[:3]\n                y = - 0.5 * PRISM.totalCorr[t1,t2][:3]", "x = PRISM.sys.domain.k[:2]\n                y = - 0.5 * PRISM.totalCorr[t1,t2][:2]")
+mutant('C05-b2-linear-fit', 'C05', 'R05.b2', CA + 'second_virial.py', 'fit = np.poly1d(np.polyfit(x,y,2))', 'fit = np.poly1d(np.polyfit(x,y,1))')
+mutant('C05-pmf-log10', 'C05', 'R05.w', CA + 'pmf.py', 'np.log(rdf.data)', 'np.log(rdf.data)/2.302585092994046')
+mutant('C05-pmf-nokT', 'C05', 'R05.w', CA + 'pmf.py', 'rdf = -1.0 * PRISM.sys.kT * np.log(rdf.data)', 'rdf = -1.0 * np.log(rdf.data)')
+mutant('C05-chi-R-inverted', 'C05', 'R05.x', CA + 'chi.py', 'R = v_A/v_B', 'R = v_B/v_A')
+mutant('C05-chi-cab-coef', 'C05', 'R05.x', CA + 'chi.py', '- 2*C_AB)', '- C_AB)')
+mutant('C05-chi-ile', 'C05', 'R05.x', CA + 'chi.py', "            if i<j:\n                C_AA", "            if i<=j:\n                C_AA")
+mutant('C05-chi-wrong-pair', 'C05', 'R05.x', CA + 'chi.py', 'C_BB = PRISM.directCorr[t2,t2]', 'C_BB = PRISM.directCorr[t1,t1]')
+mutant('C05-spin-sign', 'C05', 'R05.l', CA + 'spinodal_condition.py', 'curve += -2*C_AB * rho_AB * omega_AB', 'curve += -1*C_AB * rho_AB * omega_AB')
+mutant('C05-solv-py-minus', 'C05', 'R05.p', CA + 'solvation_potential.py', 'np.log(1 + psi.data)', 'np.log(1 - psi.data)')
+mutant('C05-solv-order', 'C05', 'R05.p', CA + 'solvation_potential.py', "psi = PRISM.directCorr.dot(structureFactor).dot(PRISM.directCorr) * -PRISM.sys.kT ", "psi = structureFactor.dot(PRISM.directCorr).dot(PRISM.directCorr) * -PRISM.sys.kT ")
+mutant('C05-solv-unnormalised', 'C05', 'R05.p', CA + 'solvation_potential.py', 'structureFactor = structure_factor(PRISM)', 'structureFactor = structure_factor(PRISM,normalize=False)')
+mutant('C05-gr-minus', 'C05', 'R05.g', CA + 'pair_correlation.py', 'PRISM.pairCorr = PRISM.totalCorr + 1.0', 'PRISM.pairCorr = PRISM.totalCorr - 1.0')
+twin('C05-twin-sf', ['C05', 'C06'], CA + 'structure_factor.py', 'structureFactor = (PRISM.totalCorr*PRISM.sys.density.pair + PRISM.omega)', 'structureFactor = PRISM.omega + PRISM.sys.density.pair*PRISM.totalCorr')
+twin('C05-twin-solv-assoc', ['C05', 'C06'], CA + 'solvation_potential.py', "psi = PRISM.directCorr.dot(structureFactor).dot(PRISM.directCorr) * -PRISM.sys.kT ", "psi = PRISM.directCorr.dot(structureFactor.dot(PRISM.directCorr)) * (-1.0*PRISM.sys.kT)")
+twin('C05-twin-b2', ['C05', 'C06'], CA + 'second_virial.py', 'B2[t1,t2] = - 0.5 * PRISM.totalCorr[t1,t2][0]', 'B2[t1,t2] = PRISM.totalCorr[t1,t2][0]/(-2.0)')
+mutant('C06-sf-inplace', 'C06', 'R06.f', CA + 'structure_factor.py', 'structureFactor = (PRISM.totalCorr*PRISM.sys.density.pair + PRISM.omega)', 'structureFactor = PRISM.totalCorr\n    structureFactor *= PRISM.sys.density.pair\n    structureFactor += PRISM.omega')
+mutant('C06-b2-no-guard', 'C06', 'R06.s', CA + 'second_virial.py', "    if PRISM.totalCorr.space == Space.Real:\n        PRISM.sys.domain.MatrixArray_to_fourier(PRISM.totalCorr)\n", "")
+mutant('C06-sf-flag-only', 'C06', 'R06.f', CA + 'structure_factor.py', "    if PRISM.omega.space == Space.Real:\n        PRISM.sys.domain.MatrixArray_to_fourier(PRISM.omega)", "    if PRISM.omega.space == Space.Real:\n        PRISM.omega.space = Space.Fourier")
+mutant('C06-gr-wrong-guard', 'C06', 'R06.r', CA + 'pair_correlation.py', 'if PRISM.totalCorr.space == Space.Fourier:', 'if PRISM.totalCorr.space != Space.Fourier:')
+mutant('C06-spinodal-inplace', 'C06', 'R06.f', CA + 'spinodal_condition.py', 'omega_AB = omega_AB/rho_AB', 'omega_AB /= rho_AB')
+mutant('C06-solv-alias', 'C06', 'R06.f', CA + 'solvation_potential.py', "psi = PRISM.directCorr.dot(structureFactor).dot(PRISM.directCorr)\n", "psi = PRISM.directCorr.dot(structureFactor,inplace=True).dot(PRISM.directCorr)\n")
+mutant('C06-gr-alias', 'C06', 'R06.c', CA + 'pair_correlation.py', "    PRISM.pairCorr = PRISM.totalCorr + 1.0", "    PRISM.totalCorr += 1.0\n    PRISM.pairCorr = PRISM.totalCorr")
+twin('C06-twin-guard-neq', 'C06', CA + 'second_virial.py', 'if PRISM.totalCorr.space == Space.Real:', 'if PRISM.totalCorr.space != Space.Fourier:')
